@@ -41,6 +41,8 @@ def applicable_faults(prog, kinds=None, extra=()):
     for idx in range(len(prog['steps']) + 1):
         for k in ('op_discard', 'op_force', 'op_raise', 'op_interrupt'):
             out.append({'kind': k, 'at': idx})
+        if 'op_in_body' in extra and idx < len(prog['steps']) and prog['steps'][idx]['t'] in ('in', 'out'):
+            out.append({'kind': 'body_discard_then_op', 'at': idx})
         if 'exits' in extra:
             for k in ('op_exit0', 'op_exit', 'op_ctrl_c'):
                 out.append({'kind': k, 'at': idx})
@@ -100,6 +102,8 @@ def apply_faults(prog, faults):
         elif k == 'body_interrupt_swallowed':
             s['beh'] = 'interrupt'
             s['swallow_interrupt'] = True
+        elif k == 'body_discard_then_op':
+            s['beh'] = 'discard_then_op'
     for f in sorted([f for f in faults if f['kind'] in INSERTS], key=lambda f: -f['at']):
         p['steps'].insert(f['at'], dict(INSERTS[f['kind']]))
     for f in faults:
@@ -121,7 +125,7 @@ def compatible(f1, f2):
     if 'at' in f1 and 'at' in f2 and f1['at'] == f2['at'] and f1['kind'] not in INSERTS and f2['kind'] not in INSERTS:
         a, b = f1['kind'], f2['kind']
         body = {'body_discard', 'body_discard_raise', 'body_force', 'body_raise', 'body_interrupt',
-                'body_interrupt_swallowed'}
+                'body_interrupt_swallowed', 'body_discard_then_op'}
         if a in body and b in body:
             return False
         if {a, b} == {'unencodable_arg', 'unserialisable_out_arg'}:
@@ -162,10 +166,10 @@ def model_effects(prog):
                 d = prog['ins'][s['i']]
                 if d['kind'] != 'property' and d.get('capture', 'all') in ('all', 'pos1', 'pos1_name_b'):
                     capture_failed = True
-            if s.get('hfail') and (t == 'out' or s['beh'] in ('ret', 'nested', 'force')):
+            if s.get('hfail') and (t == 'out' or s['beh'] in ('ret', 'nested', 'force', 'discard_then_op')):
                 # an input handler only runs when the wrapped body returned; an output handler runs before the body
                 capture_failed = True
-            if s['beh'] in ('discard', 'discard_raise'):
+            if s['beh'] in ('discard', 'discard_raise', 'discard_then_op'):
                 discarded = True
             if s['beh'] == 'force':
                 forced_at.append(s['sid'])
